@@ -1186,6 +1186,14 @@ class World:
                         self.violate('C11:frames-on-recv-error', 'none', show_frames(frames))
         elif info['op'] == 'ssock':
             self.h('server-late-or-unknown-socket-event')
+            sk = info.get('sock')
+            if sk is not None and sk.kind == 'udp' and sk.owner_meta and ev[0] == 'd' and not raised:
+                a = self.all_assocs[sk.owner_meta[1]]
+                if a['state'] == 'open' and a.get('ssock') is sk:
+                    self.violate('C11:reply-lost:server-dropped-a-live-association',
+                                 'a datagram arriving on the remote socket of the association of %s (not idle, not closed) '
+                                 'is relayed as one UDP_DATA frame' % show_addr(a['src']),
+                                 'nobody reads socket %d any more: %s' % (sk.sid, self.server_state()[:200]))
             if frames or self.rsends or self.usends:
                 self.violate('C10:reply-on-retired-socket-relayed', 'nothing', show_frames(frames))
         else:
@@ -1323,7 +1331,9 @@ class ScenarioGen:
             r = rng.random()
             out.append(0 if r < 0.6 else rng.choice(NET_ERRNOS) if r < 0.9 else rng.choice(OTHER_ERRNOS))
         if self.focus == 'udp':
-            return ''      # resolver faults belong to the C10 run
+            # outcomes of the server's sendto() calls (and of the few resolver calls of interleaved DNS
+            # queries): errnos inside and outside NET_ERRS
+            out = [0 if rng.random() < 0.55 else rng.choice(NET_ERRNOS + OTHER_ERRNOS + OTHER_ERRNOS) for _ in range(n)]
         return ' res=' + ','.join(str(x) for x in out)
 
     def capture(self, w, kind):
@@ -1530,6 +1540,17 @@ def corpus(focus):
                       [u % '01', 'sround 2', 'ssock 0 e 111', u % '02', 'sround 1', 'ssock 0 d 5.6.7.8|99 aa', 'cdeliver']))
         cases.append(('udp-sendto-error', 'cfg method=tproxy max=65535 probes=1024 ns=- tons=-',
                       [u % '01', u % '02', 'sround 3 res=101,0']))
+        # sendto() errors of every kind (inside NET_ERRS: 101, 111; outside: EPERM 1, EINVAL 22, EMSGSIZE 90,
+        # ENOBUFS 105, EACCES 13) for one destination, then more traffic on the same association:
+        # on the next loop pass and in the same batch; a reply afterwards must still come through
+        for e in (1, 22, 90, 105, 13, 101, 111):
+            cases.append(('udp-sendto-errno-%d-next-pass' % e, 'cfg method=tproxy max=65535 probes=1024 ns=- tons=-',
+                          [u % '01', 'sround 2 res=%d' % e, 'tick 512', u % '02', 'sround 1', u % '03', 'sround 1 res=%d' % e,
+                           'cudp 2 10.0.0.5|4001 203.0.113.200|65535 04', 'sround 1', 'ssock 0 d 5.6.7.8|99 aa', 'cdeliver',
+                           'ssock 0 d 203.0.113.200|65535 bb', 'cdeliver']))
+            cases.append(('udp-sendto-errno-%d-same-batch' % e, 'cfg method=tproxy max=65535 probes=1024 ns=- tons=-',
+                          [u % '01', u % '02', 'cudp 2 10.0.0.6|4000 5.6.7.8|99 0a', u % '03', 'sround 6 res=%d,0,%d,0' % (e, e),
+                           'ssock 0 d 5.6.7.8|99 aa', 'ssock 1 d 5.6.7.8|99 ab', 'cdeliver', 'cdeliver', u % '04', 'sround 1']))
     return cases
 
 
